@@ -159,3 +159,25 @@ func F11(prop string) {
 		ev.ReportKnown(prop, "F11")
 	}
 }
+
+// F14Reproduces: yaml.Marshal fails on a white-space-led multi-line string inside an ordered map.
+func F14Reproduces() bool {
+	p, err := pipeline.Parse(strings.NewReader(`{"steps": [], "x": {"retry": ["\na"]}}`))
+	if p == nil || (err != nil && !warningIs(err)) {
+		return false
+	}
+	_, err = yaml.Marshal(p)
+	return err != nil
+}
+
+func warningIs(err error) bool {
+	type w interface{ Unwrap() []error }
+	_, ok := err.(w)
+	return ok
+}
+
+func F14(prop string) {
+	if ev.Known("F14") && F14Reproduces() {
+		ev.ReportKnown(prop, "F14")
+	}
+}
